@@ -396,7 +396,7 @@ pub fn orphan_is_legit(w: &World, uri: &str) -> bool {
 }
 
 /// Is the given class (or every class) of `ca_name` cut off from the TA?
-fn rc_cut_off(w: &World, ca_name: &str, rcn: Option<&str>, depth: usize) -> bool {
+pub fn rc_cut_off(w: &World, ca_name: &str, rcn: Option<&str>, depth: usize) -> bool {
     if depth > 6 {
         return false;
     }
